@@ -25,7 +25,7 @@ func main() {
 		Clauses: map[int64]string{1: "invocations-not-exactly-the-prescribed-ones", 2: "registration-outcome", 3: "invocation-without-message",
 			98: "unparseable-observation", 99: "unparseable-operation"},
 		OpNames: map[int64]string{1: "add-entity", 2: "add-feature", 3: "add-function", 4: "set-data", 5: "get-data", 6: "connect",
-			7: "disconnect", 8: "inbound-datagram", 9: "add-response-callback", 10: "add-result-callback", 11: "factory-query", 12: "overlapping-arrivals", 13: "back-to-back-arrivals", 14: "remove-entity"},
+			7: "disconnect", 8: "inbound-datagram", 9: "add-response-callback", 10: "add-result-callback", 11: "factory-query", 12: "overlapping-arrivals", 13: "back-to-back-arrivals", 14: "remove-entity", 15: "overlapping-registrations"},
 		NewImpl: func() hx.Impl { return &impl{w: dispatch.New()} },
 		Gen: func(r *hx.Rng, tier string, i int) []hx.Zs {
 			switch i % 4 {
